@@ -364,7 +364,7 @@ func c12SinkOwnership(c *Ctx, rule string) {
 	if !c.Anchor(rule, "zapcore.BufferedWriteSyncer", bws != nil) {
 		return
 	}
-	var direct, discard []string
+	var direct, discard, pieces []string
 	n := 0
 	c.EachRootFunc(func(fn *ssa.Function) {
 		for _, cl := range Calls(fn) {
@@ -387,10 +387,19 @@ func c12SinkOwnership(c *Ctx, rule string) {
 				direct = append(direct, FuncKey(fn)+": "+Desc(a0)+"."+f.Name())
 			case fa == bwsR.writer && (f.Name() == "Reset" || f.Name() == "ReadFrom"):
 				discard = append(discard, FuncKey(fn)+": "+Desc(a0)+"."+f.Name())
+			case fa == bwsR.writer && f.Pkg() != nil && f.Pkg().Path() == "bufio":
+				switch f.Name() {
+				case "Write", "Flush", "Available", "Buffered", "Size":
+				default:
+					// WriteString / WriteByte / WriteRune / AvailableBuffer …: bufio cuts a string that is larger than
+					// the buffer into buffer-sized sink writes when the sink has no WriteString of its own
+					pieces = append(pieces, FuncKey(fn)+": "+Desc(a0)+"."+f.Name())
+				}
 			}
 		}
 	})
 	c.Check(len(direct) == 0 && n >= 4, rule, CorePath+".BufferedWriteSyncer", "sink-only-through-buffer", bws.Obj().Pos(), "of the wrapped WriteSyncer only Sync is called directly; every byte goes through the bufio.Writer, which keeps the order, turns short writes into errors and makes errors sticky (direct calls: %v; %d calls on WS/writer inspected)", direct, n)
+	c.Check(len(pieces) == 0, rule, CorePath+".BufferedWriteSyncer", "whole-writes-only", bws.Obj().Pos(), "data enters the bufio.Writer through Write([]byte) only (bufio then hands an oversized payload to the sink in one piece); no WriteString/WriteByte/WriteRune: %v", pieces)
 	c.Check(len(discard) == 0, rule, CorePath+".BufferedWriteSyncer", "buffer-never-discarded", bws.Obj().Pos(), "the bufio.Writer is never Reset (that would silently drop bytes already accepted): %v", discard)
 }
 
